@@ -41,7 +41,7 @@ def items(tier):
         for c in grid.program_grid(tier):
             out.append(("checkpoint", c))
         # the extension contract on ARRAYS: None positions whose shape / kind differs from the output's, both modes
-        for c in grid.real_grid("quick", families=("extension",)):
+        for c in grid.real_grid("quick", families=("extension",)) + grid.extension_pass_configs():
             out.append(("vjp", c))
             out.append(("jvp", c))
             out.append(("struct", c))
